@@ -35,8 +35,11 @@ pub fn run(paths: &[PathBuf], o: &Opts, stride: usize, offset: usize) -> Value {
             let inner: String = serde_json::from_str(t).unwrap();
             let v: Value = serde_json::from_str(&inner).unwrap();
             executed += 1;
-            let text = v["text"].as_str().unwrap().to_string();
-            let prog = v["prog"].clone();
+            let call0 = HCall::from_json(&json!({"op": "deploy", "h": 0, "text": v["text"], "prog": v["prog"], "fault_at": v["fault_at"]}));
+            let (text, prog) = match &call0.call {
+                Call::Deploy { text, prog, .. } => (text.clone(), prog.clone()),
+                _ => unreachable!(),
+            };
             let fault_at = v["fault_at"].as_u64().unwrap() as usize;
             *by_style.entry(v["style"].as_str().unwrap().to_string()).or_default() += 1;
             *by_fault.entry(v["fault"].as_str().unwrap().to_string()).or_default() += 1;
@@ -96,7 +99,7 @@ pub fn run(paths: &[PathBuf], o: &Opts, stride: usize, offset: usize) -> Value {
                     tid += 1;
                 }
             } else if samples.len() < 3 && executed % 1499 == 3 {
-                samples.push(json!({"text": text.replace("%NU%", "ν"), "style": v["style"], "fault": v["fault"], "commands": n}));
+                samples.push(json!({"text": text, "style": v["style"], "fault": v["fault"], "commands": n}));
             }
         }
     }
